@@ -318,6 +318,7 @@ pub fn dispatch(args: &Args) -> i32 {
             let pls = ["flat_vec", "flat_iter", "flat_wo_vec", "flat_wo_iter"];
             let mut parts = vec![part_trees(args, &pls, false), part_random(args, &pls), part_chains(args, &["flat_vec", "flat_wo_iter"]), part_chains_exh(args, &["flat_vec", "flat_wo_iter"], false)];
             parts.push(crate::extra::part_clone_counts(args));
+            parts.push(crate::extra::part_consuming_arity(args));
             parts.push(crate::calc::part_derived_consuming(args));
             finish(args, "C15", parts, vec![], json!({
                 "functions": ["flat::detail::eval_flatex_consuming_vars", "FlatEx::eval_vec", "FlatEx::eval_iter", "flat::detail::eval_numbers"],
